@@ -290,25 +290,38 @@ class Validator:
         self,
         value: Any,
         add_comments: bool = False,
-        schema_name: str = "map",
+        schema_name: (str | None) = None,
         version: (float | None) = None,
     ):
         """
         verbose - also return the jsonschema error details
+        If no schema_name is given each (root) dictionary is validated
+        against the schema of its own __type__ e.g. map, layer, or class
         """
-        if version:
-            jsn_schema = self.get_versioned_schema(version, schema_name)
-            validator = jsonschema.Draft4Validator(schema=jsn_schema)
-        else:
-            validator = self.get_schema_validator(schema_name)
-
+        validators: dict = {}
         error_messages = []
 
         if isinstance(value, list):
-            for d in value:
-                error_messages += self._get_errors(d, validator, add_comments)
+            roots = value
         else:
-            error_messages = self._get_errors(value, validator, add_comments)
+            roots = [value]
+
+        for d in roots:
+            name = schema_name
+
+            if not name:
+                name = "map"
+                if isinstance(d, dict) and "__type__" in d:
+                    name = d["__type__"]
+
+            if name not in validators:
+                if version:
+                    jsn_schema = self.get_versioned_schema(version, name)
+                    validators[name] = jsonschema.Draft4Validator(schema=jsn_schema)
+                else:
+                    validators[name] = self.get_schema_validator(name)
+
+            error_messages += self._get_errors(d, validators[name], add_comments)
 
         return error_messages
 
